@@ -49,6 +49,7 @@ class ExprMixin:
     def num(self, v, what, path, line):
         """Return (term, is_real) of a numeric value; None / non-numbers are a TypeError obligation."""
         if isinstance(v, VInt): return v.t, False
+        if isinstance(v, VAff): return v.t, False            # value of an LP expression under the ghost valuation
         if isinstance(v, VBool): return z3.If(v.t, z3.IntVal(1), z3.IntVal(0)), False
         if isinstance(v, VReal): return v.t, True
         if isinstance(v, VOpt):
@@ -241,6 +242,10 @@ class ExprMixin:
         self.vc('no-raise/len-of-non-list@%d' % line, p, Py.is_plist(v.t), line=line)
         return VInt(1 + L.len(Py.tail(v.t)))
 
+    def contains_term(self, t, x):
+        from .engine import contains
+        return contains(t, x)
+
     def toreal(self, v):
         if isinstance(v, VReal): return v.t
         if isinstance(v, VInt): return z3.ToReal(v.t)
@@ -271,8 +276,16 @@ class ExprMixin:
             for _ in range(pushed): self.guards.pop()
         return VBool(z3.And(*terms) if isinstance(e.op, ast.And) else z3.Or(*terms))
 
+    def lp_binop(self, op, l, r, p, line): return self.lp_binop_impl(self, op, l, r, p, line)
+
     def ev_Compare(self, e, p):
         left = self.ev(e.left, p); out = []
+        if len(e.ops) == 1:
+            right = self.ev(e.comparators[0], p)
+            if (isinstance(left, (VAff, VLpVar)) or isinstance(right, (VAff, VLpVar))) and not self.spec_mode:
+                if True:
+                    return self.lp_compare_impl(self, e.ops[0], left, right, p, e.lineno)
+            return VBool(self.compare(e.ops[0], left, right, p, e.lineno))
         for op, ce in zip(e.ops, e.comparators):
             right = self.ev(ce, p)
             out.append(self.compare(op, left, right, p, e.lineno)); left = right
@@ -345,7 +358,7 @@ class ExprMixin:
             if isinstance(l, (VOptR, VReal, VInt)) and isinstance(r, (VOptR, VReal, VInt)):
                 f = lambda x: x.t if isinstance(x, VOptR) else OptR.some(self.toreal(x))
                 return f(l) == f(r)
-        if isinstance(l, (VInt, VBool, VReal)) and isinstance(r, (VInt, VBool, VReal)):
+        if isinstance(l, (VInt, VBool, VReal, VAff)) and isinstance(r, (VInt, VBool, VReal, VAff)):
             a, ra = self.num(l, 'eq', p, line); b, rb = self.num(r, 'eq', p, line)
             if ra != rb:
                 a = a if ra else z3.ToReal(a); b = b if rb else z3.ToReal(b)
@@ -567,8 +580,10 @@ class ExprMixin:
             self.guards.append(z3.And(0 <= j, j < src.len))      # safety obligations hold for every element
             try: elt = self.ev(e.elt, q)
             finally: self.guards.pop()
-            if isinstance(elt, VLpVar): return VList(src.len, z3.Lambda([j], elt.t), 'var')
-            if isinstance(elt, VInt): return VList(src.len, z3.Lambda([j], elt.t), 'int')
+            if isinstance(elt, (VLpVar, VInt)):
+                out = VList(src.len, self.lemmas.named_array(j, elt.t, [x for x in self.qvars if self.contains_term(elt.t, x)]), 'var' if isinstance(elt, VLpVar) else 'int')
+                out.comp = (j, elt.t)        # the generating expression (used by lpSum to name the summed sequence)
+                return out
             raise Undecided('comprehension element %r' % (elt,))
         if isinstance(src, VCList):
             out = []
